@@ -49,6 +49,13 @@ func TestVerifRecvReplay(t *testing.T) {
 			crcWire = real ^ 1
 		}
 	}
+	// The previous file content is arbitrary and the receiver's decisions do not depend on it; the hook
+	// below can tell "marked before written" only if it differs from the payload where the chunk goes.
+	for i := 0; i < k && i < plen; i++ {
+		if off := int(idx)*cs + i; off >= 0 && off < len(old) && old[off] == payload[i] {
+			old[off] ^= 0xFF
+		}
+	}
 	outDir := t.TempDir()
 	item := manifest.FileItem{RelPath: "f", Size: size, ID: "id"}
 	m := manifest.Manifest{Root: "", Items: []manifest.FileItem{item}, TotalBytes: size, FileCount: 1}
